@@ -1077,6 +1077,11 @@ func (env *Zlisp) LeftBindingPower(sx Sexp) (int, error) {
 			return 0, nil
 		}
 		if found {
+			if op.MunchLeft == nil {
+				// a prefix-only operator (not, for, break, continue) starts a new
+				// expression; it never binds to what is on its left.
+				return 0, nil
+			}
 			//Q("LeftBindingPower: found op '%#v', returning op.Bp = %v", op, op.Bp)
 			return op.Bp, nil
 		}
